@@ -691,7 +691,7 @@ func (p *prog) hintFam() {
 	p.tag("error-hint")
 	p.tag("error-expected")
 	var failing string
-	switch p.r.Intn(10) {
+	switch p.r.Intn(12) {
 	case 0, 1, 2, 3:
 		failing = p.pick(attrHints)
 		if p.chance(0.6) {
@@ -723,7 +723,7 @@ func (p *prog) hintFam() {
 		p.tag("load")
 		p.otherSnippet()
 		return
-	case 8:
+	case 8, 9, 10:
 		// undefined name: static error with a hint over the bindings of the enclosing blocks (function
 		// locals and parameters, file-local load bindings, module globals); siblings at equal distance
 		names := p.idents(3 + p.r.Intn(5))
@@ -743,7 +743,7 @@ func (p *prog) hintFam() {
 			}
 		}
 		n := names[p.r.Intn(len(names))]
-		switch p.r.Intn(3) {
+		switch p.r.Intn(5) {
 		case 0:
 			failing = n[:len(n)-1] + string("qz_"[p.r.Intn(3)])
 		case 1:
